@@ -87,3 +87,16 @@ ENGINES += [
     {"name": "rs2smt", "path": "/verif/rs2smt", "serves_properties": ["C17", "C25", "C26", "C27", "C34"],
      "kind_free_text": "syn-based AST dumper (Rust) + generic symbolic interpreter for a Rust subset (Python) emitting QF_BV SMT-LIB; native harness crate for translator validation and replay"},
 ]
+
+CLAIMED.update({
+    "C25": dict(engine="rs2smt", level="proof", ref="DESIGN §1/E6, §4/C25, §8.4", note=_RS2SMT_NOTE + " Comment line = a line that starts with `//` (assumption); "
+                "texts with an interpreted `}` line at nesting depth 0 (where the code saturates) and exact indentation of lines carrying their own leading whitespace are excluded from the clauses.",
+                technique="symbolic interpretation of the current Rust source (syn AST) -> SMT (QF_BV bounded strings), z3/cvc5",
+                text="Bounded proof over every 2-call sequence of push_str / push_str_literal / indent / deindent with fragments <= 3 chars over {a, space, {, }, /, newline} "
+                     "(thorough: 2 x 4, 3 x 2): text preserved up to line-leading whitespace, indentation follows brace nesting, literal appends neutral, balanced code restores "
+                     "indentation, no panic. The text-preservation defects found were repaired (717df73); four fragment-boundary indentation shapes are known findings."),
+    "C27": dict(engine="rs2smt", level="proof", ref="DESIGN §1/E6, §4/C27, §8.4", note=_RS2SMT_NOTE,
+                technique="symbolic interpretation of the current Rust source (syn AST) -> SMT (QF_BV bounded strings), z3/cvc5",
+                text="Bounded search/proof over two packages in one namespace (kebab names <= 3, numeric parts <= 11 / 19, pre-release/build identifiers <= 3 / 4 over {a,0,1,-,.}): "
+                     "distinct (name, version) must give distinct module names. Three collision shapes of the version mangling are genuine and listed as known findings; everything else is discharged."),
+})
